@@ -147,8 +147,7 @@ func (s *System) Start() error {
 	// 守护系统上下文
 	go func() {
 		<-s.options.Context.Done()
-		s.statusLock.Lock()
-		defer s.statusLock.Unlock()
+		// stop 自身会获取 statusLock 校验状态，此处不可再持锁调用，否则会自锁并使后续 Stop 永久阻塞
 		_ = s.stop(false) // 无意义错误
 	}()
 	return nil
